@@ -76,6 +76,100 @@ func (b *jsonBlob) text() string {
 	return string(b.raw)
 }
 
+// fingerprint renders the content with symbolic leaves identified by term.
+func (b *jsonBlob) fingerprint(sb *strings.Builder) {
+	switch {
+	case b.garbage:
+		sb.WriteString("<garbage>")
+	case b.node != nil:
+		b.node.fingerprint(sb)
+	default:
+		if n, err := parseRaw(b.raw); err == nil {
+			n.fingerprint(sb)
+		} else {
+			fmt.Fprintf(sb, "raw:%x", b.raw)
+		}
+	}
+	if b.trail {
+		sb.WriteString("<trail>")
+	}
+}
+
+func fpScalar(sb *strings.Builder, v value) {
+	switch x := v.(type) {
+	case symv:
+		fmt.Fprintf(sb, "<t%d>", x.t.ID)
+	case symstr:
+		sb.WriteByte('"')
+		for _, c := range x.b {
+			if s, ok := c.(symv); ok {
+				fmt.Fprintf(sb, "<t%d>", s.t.ID)
+			} else {
+				fmt.Fprintf(sb, "%02x", c)
+			}
+		}
+		sb.WriteByte('"')
+	case string:
+		sb.WriteByte('"')
+		fmt.Fprintf(sb, "%x", x)
+		sb.WriteByte('"')
+	case structure:
+		sb.WriteByte('(')
+		for _, e := range x {
+			fpScalar(sb, e)
+			sb.WriteByte(' ')
+		}
+		sb.WriteByte(')')
+	default:
+		fmt.Fprintf(sb, "%v", x)
+	}
+}
+
+func (n *jnode) fingerprint(sb *strings.Builder) {
+	switch n.kind {
+	case jNull:
+		sb.WriteString("null")
+	case jBool:
+		fpScalar(sb, n.b)
+	case jNum:
+		if n.numText != "" {
+			sb.WriteString(n.numText)
+		} else {
+			fpScalar(sb, n.num)
+		}
+	case jStr:
+		if s, ok := n.str.(string); ok {
+			fpScalar(sb, s)
+		} else {
+			fpScalar(sb, n.str)
+		}
+	case jTime:
+		sb.WriteString("time")
+		fpScalar(sb, n.timeV)
+	case jArr:
+		sb.WriteByte('[')
+		for _, e := range n.arr {
+			e.fingerprint(sb)
+			sb.WriteByte(',')
+		}
+		sb.WriteByte(']')
+	case jObj:
+		// member order is not significant for the decoder: sorted
+		idx := make([]int, len(n.keys))
+		for k := range idx {
+			idx[k] = k
+		}
+		sort.Slice(idx, func(a, b int) bool { return n.keys[idx[a]] < n.keys[idx[b]] })
+		sb.WriteByte('{')
+		for _, k := range idx {
+			fmt.Fprintf(sb, "%q:", n.keys[k])
+			n.vals[k].fingerprint(sb)
+			sb.WriteByte(',')
+		}
+		sb.WriteByte('}')
+	}
+}
+
 func (n *jnode) render(sb *strings.Builder) {
 	switch n.kind {
 	case jNull:
